@@ -13,6 +13,10 @@
 (*   - the events the payer's user handles (PaymentSent, PaymentFailed,    *)
 (*     PaymentPathFailed), list_recent_payments after a restart, manager   *)
 (*     snapshots / restarts, and the payer's balances at quiescence.       *)
+(*   - what the chain shows once a channel has been closed: the commitment *)
+(*     transaction that confirmed (its output values), and each spend of   *)
+(*     one of its HTLC outputs, with the preimage (the recipient's claim   *)
+(*     was settled through an on-chain HTLC output) or without (timeout).  *)
 (* Nothing about pending_outbound_payments, session keys, retry counters   *)
 (* or the event queue appears here.  Each operator is a guard (what the    *)
 (* property demands of this observation) plus the update of the ghost      *)
@@ -23,7 +27,9 @@ EXTENDS Integers, Sequences, FiniteSets, FiniteSetsExt, TLC
 
 VARIABLES
   pay,      \* [pid -> [node, hash, amt, nparts, fixed, gen, term, fee, rep, dead, initf, owed, blame]]  (gen: how often the id was accepted)
-  ht,       \* [<<chan, adder, id>> -> [hash, pid, gen, st]]   every HTLC offered anywhere; pid = 0: not a payer's own part
+  ht,       \* [<<chan, adder, id>> -> [hash, pid, gen, st, amt]]   every HTLC offered anywhere; pid = 0: not a payer's own part
+            \*   st: "flight" | "ful" | "fail"; an HTLC stays in flight after its channel was closed for as long as
+            \*   an output of its value sits unspent in the confirmed (or a not yet confirmed) commitment
   pidOf,    \* [hash -> pid]  the payment id the payer last used this hash with
   released, \* set of hashes whose preimage a recipient released (claim_funds was called)
   failSeen, \* set of <<hash, chan>>: an update_fail_htlc for that hash was emitted on that channel
@@ -31,9 +37,10 @@ VARIABLES
   spent,    \* [node -> msat]  sum of (amount + reported fee) over the node's PaymentSent events
   feeKnown, \* [node -> BOOLEAN]  every PaymentSent of the node reported its fee
   initBal,  \* [node -> msat]
-  gotAdd    \* set of nodes that were ever offered an HTLC (they are not pure payers)
+  gotAdd,   \* set of nodes that were ever offered an HTLC (they are not pure payers)
+  stale     \* a node restarted from a manager snapshot its monitors had overtaken: channels were closed
 
-svars == <<pay, ht, pidOf, released, failSeen, snap, spent, feeKnown, initBal, gotAdd>>
+svars == <<pay, ht, pidOf, released, failSeen, snap, spent, feeKnown, initBal, gotAdd, stale>>
 
 Pids == DOMAIN pay
 Own(pid) == {k \in DOMAIN ht : ht[k].pid = pid /\ ht[k].gen = pay[pid].gen}
@@ -44,10 +51,10 @@ AllPartsOut(pid) == pay[pid].fixed => Cardinality(Own(pid)) + pay[pid].initf >= 
 
 SInit ==
   /\ pay = <<>> /\ ht = <<>> /\ pidOf = <<>> /\ released = {} /\ failSeen = {}
-  /\ snap = <<>> /\ spent = <<>> /\ feeKnown = <<>> /\ initBal = <<>> /\ gotAdd = {}
+  /\ snap = <<>> /\ spent = <<>> /\ feeKnown = <<>> /\ initBal = <<>> /\ gotAdd = {} /\ stale = FALSE
 
 SOpen(nodes, bal) ==
-  /\ pay' = <<>> /\ ht' = <<>> /\ pidOf' = <<>> /\ released' = {} /\ failSeen' = {} /\ gotAdd' = {}
+  /\ pay' = <<>> /\ ht' = <<>> /\ pidOf' = <<>> /\ released' = {} /\ failSeen' = {} /\ gotAdd' = {} /\ stale' = FALSE
   /\ snap' = [n \in nodes |-> <<>>]
   /\ spent' = [n \in nodes |-> 0]
   /\ feeKnown' = [n \in nodes |-> TRUE]
@@ -76,39 +83,39 @@ SSend(node, pid, hash, amt, nparts, fixed, res) ==
   /\ (res = "ok" /\ pid \in Pids) => ~InFlight(pid)
   /\ pidOf' = IF res = "ok" THEN Put(pidOf, hash, pid) ELSE pidOf
   /\ pay' = IF res = "ok" THEN Put(base, pid, rec) ELSE pay
-  /\ UNCHANGED <<ht, released, failSeen, snap, spent, feeKnown, initBal, gotAdd>>
+  /\ UNCHANGED <<ht, released, failSeen, snap, spent, feeKnown, initBal, gotAdd, stale>>
 
 (* ---- an update_add_htlc leaves `node` (retransmissions after a reconnection repeat the key). *)
 (* A payment that already reported its outcome, or that a restarted node forgot, gets no new HTLC. *)
-SAdd(node, chan, id, hash) ==
+SAdd(node, chan, id, hash, amt) ==
   LET k == <<chan, node, id>>
       mine == hash \in DOMAIN pidOf /\ pidOf[hash] \in Pids /\ pay[pidOf[hash]].node = node
   IN /\ IF k \in DOMAIN ht THEN ht' = ht
         ELSE /\ mine => (pay[pidOf[hash]].term = "none" /\ ~pay[pidOf[hash]].dead)
              /\ ht' = Put(ht, k, [hash |-> hash, pid |-> IF mine THEN pidOf[hash] ELSE 0,
-                                   gen |-> IF mine THEN pay[pidOf[hash]].gen ELSE 0, st |-> "flight"])
-     /\ UNCHANGED <<pay, pidOf, released, failSeen, snap, spent, feeKnown, initBal, gotAdd>>
+                                   gen |-> IF mine THEN pay[pidOf[hash]].gen ELSE 0, st |-> "flight", amt |-> amt])
+     /\ UNCHANGED <<pay, pidOf, released, failSeen, snap, spent, feeKnown, initBal, gotAdd, stale>>
 
 (* ---- an update_add_htlc is handed to `node`: it is not a pure payer. *)
-SGotAdd(node) == gotAdd' = gotAdd \cup {node} /\ UNCHANGED <<pay, ht, pidOf, released, failSeen, snap, spent, feeKnown, initBal>>
+SGotAdd(node) == gotAdd' = gotAdd \cup {node} /\ UNCHANGED <<pay, ht, pidOf, released, failSeen, snap, spent, feeKnown, initBal, stale>>
 
 (* ---- an update_fail_htlc is emitted on `chan` towards `adder` (ground truth of the failing hop). *)
 SFailMsg(chan, adder, id) ==
   LET k == <<chan, adder, id>> IN
   /\ failSeen' = IF k \in DOMAIN ht THEN failSeen \cup {<<ht[k].hash, chan>>} ELSE failSeen
-  /\ UNCHANGED <<pay, ht, pidOf, released, snap, spent, feeKnown, initBal, gotAdd>>
+  /\ UNCHANGED <<pay, ht, pidOf, released, snap, spent, feeKnown, initBal, gotAdd, stale>>
 
 (* ---- an update_fulfill_htlc / update_fail_htlc is handed to the node that offered the HTLC.  *)
 (* Duplicates (retransmission after a reconnection, replay after a restart) change nothing.      *)
 SResolve(chan, adder, id, how) ==
   LET k == <<chan, adder, id>> IN
   /\ ht' = IF k \in DOMAIN ht /\ ht[k].st = "flight" THEN [ht EXCEPT ![k].st = how] ELSE ht
-  /\ UNCHANGED <<pay, pidOf, released, failSeen, snap, spent, feeKnown, initBal, gotAdd>>
+  /\ UNCHANGED <<pay, pidOf, released, failSeen, snap, spent, feeKnown, initBal, gotAdd, stale>>
 
 (* ---- a recipient calls claim_funds for `hash`: from now on the preimage is released. *)
 SClaimCall(hash) ==
   /\ released' = released \cup {hash}
-  /\ UNCHANGED <<pay, ht, pidOf, failSeen, snap, spent, feeKnown, initBal, gotAdd>>
+  /\ UNCHANGED <<pay, ht, pidOf, failSeen, snap, spent, feeKnown, initBal, gotAdd, stale>>
 
 (* ---- the payer's user handles Event::PaymentSent.                                        *)
 (* SentTruthful: the recipient released the preimage and the reported preimage matches.     *)
@@ -126,7 +133,7 @@ SEvSent(node, pid, hash, preimageOk, fee) ==
      THEN /\ spent' = [spent EXCEPT ![node] = @ + pay[pid].amt + (IF fee >= 0 THEN fee ELSE 0)]
           /\ feeKnown' = [feeKnown EXCEPT ![node] = @ /\ fee >= 0]
      ELSE UNCHANGED <<spent, feeKnown>>
-  /\ UNCHANGED <<ht, pidOf, released, failSeen, snap, initBal, gotAdd>>
+  /\ UNCHANGED <<ht, pidOf, released, failSeen, snap, initBal, gotAdd, stale>>
 
 (* ---- the payer's user handles Event::PaymentFailed.                                      *)
 (* FailedTruthful: no part was settled and none is still in flight.                         *)
@@ -137,7 +144,7 @@ SEvFailed(node, pid) ==
      \/ /\ ~Settled(pid) /\ ~InFlight(pid) /\ AllPartsOut(pid)
         /\ pay[pid].term = "none" \/ (pay[pid].term = "failed" /\ pay[pid].rep)
         /\ pay' = [pay EXCEPT ![pid].term = "failed", ![pid].rep = FALSE]
-  /\ UNCHANGED <<ht, pidOf, released, failSeen, snap, spent, feeKnown, initBal, gotAdd>>
+  /\ UNCHANGED <<ht, pidOf, released, failSeen, snap, spent, feeKnown, initBal, gotAdd, stale>>
 
 (* ---- Event::PaymentPathFailed.  BlameChannel: the named channel is the one at which the   *)
 (* failure occurred: the hop the failing node received the HTLC on or the hop it could not   *)
@@ -156,23 +163,45 @@ SEvPathFailed(node, pid, hash, blamed, initial, path) ==
      ELSE blamed \in {path[k], path[k + 1]}
   /\ pay' = IF initial THEN [pay EXCEPT ![pid].initf = @ + 1] ELSE pay
   /\ failSeen' = failSeen \ {<<hash, path[j]>> : j \in 1..Len(path)}
-  /\ UNCHANGED <<ht, pidOf, released, snap, spent, feeKnown, initBal, gotAdd>>
+  /\ UNCHANGED <<ht, pidOf, released, snap, spent, feeKnown, initBal, gotAdd, stale>>
 
 (* ---- the node's manager is persisted / the node restarts from that snapshot.             *)
 SSave(node) ==
   /\ snap' = [snap EXCEPT ![node] = [p \in {q \in Pids : pay[q].node = node} |->
                                       \* while a repetition is pending the restarted manager does not know the event was handled
                                       [term |-> IF pay[p].rep THEN "none" ELSE pay[p].term, owed |-> pay[p].owed]]]
-  /\ UNCHANGED <<pay, ht, pidOf, released, failSeen, spent, feeKnown, initBal, gotAdd>>
+  /\ UNCHANGED <<pay, ht, pidOf, released, failSeen, spent, feeKnown, initBal, gotAdd, stale>>
 
-SRestart(node) ==
+(* isStale: the monitors were ahead of the snapshot (LDK closes those channels).  A part the crash  *)
+(* caught before its update_add_htlc left the node is gone for good: the number of parts is no      *)
+(* longer known from the send call.                                                                *)
+SRestart(node, isStale) ==
   /\ pay' = [p \in Pids |->
        IF pay[p].node = node
        THEN [pay[p] EXCEPT !.rep = (pay[p].term # "none" /\ (p \notin DOMAIN snap[node] \/ snap[node][p].term = "none")),
                            !.blame = FALSE,
+                           !.fixed = @ /\ ~isStale,
                            !.owed = IF p \in DOMAIN snap[node] /\ snap[node][p].owed > @ THEN snap[node][p].owed ELSE @]
        ELSE pay[p]]
+  /\ stale' = (stale \/ isStale)
   /\ UNCHANGED <<ht, pidOf, released, failSeen, snap, spent, feeKnown, initBal, gotAdd>>
+
+(* ---- a commitment transaction of `chan` confirmed with output values `outs` (sat).  An HTLC in   *)
+(* flight on that channel without an output of its value (dust, or not part of this commitment) can *)
+(* no longer be claimed: it is forfeited / failed.  The others stay in flight until their output is *)
+(* spent.                                                                                           *)
+SChainCommit(chan, outs) ==
+  /\ ht' = [k \in DOMAIN ht |-> IF k[1] = chan /\ ht[k].st = "flight" /\ (ht[k].amt \div 1000) \notin outs
+                                 THEN [ht[k] EXCEPT !.st = "fail"] ELSE ht[k]]
+  /\ UNCHANGED <<pay, pidOf, released, failSeen, snap, spent, feeKnown, initBal, gotAdd, stale>>
+
+(* ---- a confirmed transaction spends an HTLC output of `chan`'s commitment whose script commits   *)
+(* to `hash`: with the preimage the recipient's claim was settled on-chain, without it the HTLC     *)
+(* timed out.                                                                                       *)
+SChainHtlc(chan, hash, preimage) ==
+  /\ ht' = [k \in DOMAIN ht |-> IF k[1] = chan /\ ht[k].hash = hash /\ ht[k].st = "flight"
+                                 THEN [ht[k] EXCEPT !.st = IF preimage THEN "ful" ELSE "fail"] ELSE ht[k]]
+  /\ UNCHANGED <<pay, pidOf, released, failSeen, snap, spent, feeKnown, initBal, gotAdd, stale>>
 
 (* ---- list_recent_payments right after a restart.  ForgottenIsDead: a payment that is no   *)
 (* longer listed has no HTLC in flight and (guards of SAdd / SEvSent) never completes.       *)
@@ -180,7 +209,7 @@ SRecentAfterRestart(node, listed) ==
   /\ \A p \in Pids : (pay[p].node = node /\ p \notin listed) => ~InFlight(p)
   /\ pay' = [p \in Pids |-> IF pay[p].node = node /\ p \notin listed /\ pay[p].term # "sent"
                             THEN [pay[p] EXCEPT !.dead = TRUE] ELSE pay[p]]
-  /\ UNCHANGED <<ht, pidOf, released, failSeen, snap, spent, feeKnown, initBal, gotAdd>>
+  /\ UNCHANGED <<ht, pidOf, released, failSeen, snap, spent, feeKnown, initBal, gotAdd, stale>>
 
 (* ---- quiescence: every link is up and empty, every event has been handled.                *)
 (* SentComplete / FailedComplete: a payment none of whose HTLCs is pending has reported its   *)
@@ -194,6 +223,12 @@ SQuietOK(balOf, idle) ==
   /\ \A n \in DOMAIN initBal :
        (n \in idle /\ n \notin gotAdd /\ feeKnown[n] /\ \A p \in Pids : pay[p].node = n => ~InFlight(p))
           => initBal[n] - balOf[n] = spent[n]
+
+(* ---- quiescence after channels were closed and the chain has settled (every broadcast         *)
+(* transaction mined as soon as it could confirm, every timelock expired): SentComplete /         *)
+(* FailedComplete as above, a part counting as settled if its on-chain output was claimed with    *)
+(* the preimage.  (Balances are not compared: closing costs fees.)                                *)
+SQuietChainOK == \A p \in Pids : TerminalOK(p)
 
 (* state invariant evaluated on every state of every trace / model state *)
 NeverBoth == \A p \in Pids : pay[p].term \in {"none", "sent", "failed"}
